@@ -33,7 +33,7 @@ pub fn run(out: &mut Out, seed: u64, tier: &str) {
             let len = 4 + rng.below(if tier == "thorough" { 36 } else { 12 });
             let before: Vec<u64> = mol.coordinates.iter().flat_map(|p| [p.x.to_bits(), p.y.to_bits(), p.z.to_bits()]).collect();
             let mut prev: Option<Mol> = None;
-            for _ in 0..len {
+            for step in 0..len {
                 let mut g = distort(&m, rng.range(0.0, 0.3), &mut rng);
                 // a third of the requests are at the previous geometry exactly, or at it with one coordinate moved by 1e-9 ... 1e-13 A:
                 // an answer remembered "because nothing has moved" must not be served for a geometry that did move
@@ -44,7 +44,10 @@ pub fn run(out: &mut Out, seed: u64, tier: &str) {
                 } }
                 // now and then a singular geometry (all atoms at the origin as from_atomic_symbols leaves them, two atoms
                 // coincident, everything on a line): its non-finite answers must not leak into later requests
-                match rng.below(12) {
+                // (the second request of every history is such a geometry — every atom squeezed onto the x axis, or onto it to within
+                // 1e-4 A: all angles straight, exactly or nearly — so that every history has requests after a visit to one)
+                if step == 1 { let eps = if r % 2 == 0 { 0.0 } else { 1e-4 }; for (a, p) in g.xs.iter_mut().enumerate() { p[0] += 0.9 * a as f64; p[1] = eps * ((a % 3) as f64 - 1.0); p[2] = eps * ((a % 2) as f64); } n_sing += 1; }
+                match if step == 1 { 11 } else { rng.below(12) } {
                     0 => { for p in g.xs.iter_mut() { *p = [0.0, 0.0, 0.0]; } n_sing += 1; }
                     1 => { if g.xs.len() > 1 { g.xs[1] = g.xs[0]; n_sing += 1; } }
                     2 => { for p in g.xs.iter_mut() { p[1] = 0.0; p[2] = 0.0; } n_sing += 1; }
